@@ -9,6 +9,7 @@ use tracing::{debug, error, info, warn};
 use crate::config::{LspConfig, data_dir, db_path};
 use crate::lsp::code_action::{
     PackageIndex, generate_bump_code_actions, generate_bump_code_actions_with_sha,
+    locate_version_in_token,
 };
 use crate::lsp::diagnostics::generate_diagnostics;
 use crate::lsp::refresh::{fetch_missing_packages, refresh_packages};
@@ -472,14 +473,21 @@ impl<S: VersionStorer> LanguageServer for Backend<S> {
         };
 
         // Get cached packages
-        let packages = {
+        let (packages, content) = {
             let docs = self.documents.read().expect("documents lock poisoned");
             let Some(cache) = docs.get(uri) else {
                 debug!("Document not found in cache: {}", uri_str);
                 return Ok(None);
             };
-            cache.packages.clone()
+            (cache.packages.clone(), cache.content.clone())
         };
+
+        // Point every package at its version text (npm aliases, JSR specifiers): the cursor
+        // test and the edit both use the range that holds the version
+        let packages: Vec<PackageInfo> = packages
+            .iter()
+            .filter_map(|package| locate_version_in_token(package, &content))
+            .collect();
 
         if packages.is_empty() {
             return Ok(None);
